@@ -21,11 +21,13 @@ pub struct CrashCfg {
 	pub suffix: Option<Tx>,
 	/// cap on dirty pages whose subsets are enumerated completely
 	pub max_full_subsets: usize,
+	/// run the file parser (C14) on the recovered database after a clean drop
+	pub parse_after: bool,
 }
 
 impl Default for CrashCfg {
 	fn default() -> Self {
-		CrashCfg { torn: 1, recovery_depth: 1, power_loss: false, creation: false, suffix: None, max_full_subsets: 8 }
+		CrashCfg { torn: 1, recovery_depth: 1, power_loss: false, creation: false, suffix: None, max_full_subsets: 8, parse_after: false }
 	}
 }
 
@@ -171,6 +173,26 @@ pub fn judge_image(ctx: &Ctx, image: &Shadow, lo: usize, hi: usize, what: &str, 
 			ex.check().map_err(e)?;
 			ex.apply(&Ev::Reopen).map_err(e)?;
 			ex.check().map_err(e)?;
+		}
+		if ctx.crash.parse_after {
+			// C14: after recovery and a clean drop the files describe exactly the logical content
+			let model = ex.model.clone();
+			ex.close().map_err(|f| Fail::new(&format!("crash-{}", f.kind), format!("{}: {}", what, f.msg)))?;
+			let rep = crate::parser::check_dir(&ex.dir, ctx.cfg, &model);
+			if let Some(p) = rep.problems.first() {
+				// entries claimed (at commit time) by tree insertions that were not yet logged when the crash hit
+				let claimed: usize = ctx.accepted[j..].iter().map(|tx| tx.iter().map(|(_, op)| match op {
+					crate::core::Op::InsertTree(_, node) => node.count_nodes() - 1,
+					_ => 0,
+				}).sum::<usize>()).sum();
+				let only_leaks = rep.problems.iter().all(|p| p.ends_with("leaked"));
+				let tag = if only_leaks && rep.problems.len() <= claimed { " [slots claimed by tree insertions not yet logged at the crash]" } else { "" };
+				let f = Fail::new("crash-structure", format!("{}: recovered to S_{}; after a clean drop: {} ({} problems){}", what, j, p, rep.problems.len(), tag));
+				if crate::report::match_known(ctx.property, &format!("{}: {}", f.kind, f.msg)).is_none() {
+					return Err(f)
+				}
+				*stats.recovered_to.entry("known:claimed-entries-leak".into()).or_insert(0) += 1;
+			}
 		}
 		Ok(j)
 	})();
